@@ -1,6 +1,7 @@
 package main
 
 import (
+	"encoding/binary"
 	"fmt"
 	"math/rand"
 	"os"
@@ -247,6 +248,9 @@ func runDelta(in *mvInput, r *rand.Rand, n int, sink *CaseSink) {
 		if len(orig) <= 8 {
 			continue
 		}
+		if first := int(binary.BigEndian.Uint32(orig[0:4])); first < 3 {
+			continue // offsets 4..6 must lie inside the first item's payload
+		}
 		// bytes 0..3 length prefix, then the payload: for KV items its first two bytes are the key length
 		for _, off := range []int{4, 5, 6} {
 			if off >= len(orig)-4 {
@@ -257,7 +261,14 @@ func runDelta(in *mvInput, r *rand.Rand, n int, sink *CaseSink) {
 			mod[off] ^= bit
 			os.WriteFile(p, mod, 0644)
 			damaged++
+			t0 := time.Now()
 			res, fail := runChild(20*time.Second, "child-load", "-dir", dir, "-cmp", fmt.Sprint(in.Cmp), "-delta", "true", "-conc", "2")
+			if os.Getenv("VERIF_DEBUG") != "" {
+				fmt.Fprintf(os.Stderr, "child-load k=%d off=%d bit=%#x: %v ok=%v err=%q fail=%q\n", k, off, bit, time.Since(t0), res.Ok, res.Err, fail)
+				if time.Since(t0) > 300*time.Millisecond {
+					copyDir(dir, fmt.Sprintf("/tmp/d15/slow-%d", time.Now().UnixNano()))
+				}
+			}
 			switch {
 			case fail == "hang":
 				bad, sig = fmt.Sprintf("LoadFromDisk did not return within 20s on a backup with bit %#x of delta/shard-%d[%d] flipped", bit, k, off), "c11-hang"
